@@ -37,7 +37,8 @@ LEVEL_TEXT = {
              note=BASE_NOTE + "Kernel flock semantics (a lock belongs to the open file description of an inode, is released on last close or process death, conflicts with "
                               "every other description) are assumptions of the model, exhibited only by K9."),
  "C12": dict(text="Theorems C12_apply_preserves_exactness (IdxInv preserved, apply never errs), C12_counts_exact, C12_known_blobs_are_the_referenced, "
-                  "C12_incremental_eq_recomputed, C12_load_rebuilds_counts, C12_store_counts/sizes (counts are those of the abstract key->content map under Live0). "
+                  "C12_incremental_eq_recomputed, C12_load_rebuilds_counts, C12_store_counts/sizes (counts are those of the abstract key->content map under Live0), "
+                  "C12_exact_after_crash_recovery, C12_exact_in_every_concurrent_state (every reachable state of the concurrent model, every schedule, also under injected faults). "
                   "K2/K4: known_blobs, stats, sizes of the real library after every op, reopen and crash recovery equal the model's and a recount from the spec map.",
              note=BASE_NOTE + "u32 refcount and u64 statistics overflow are outside the theorems (unbounded N in the model)."),
  "C13": dict(text="Theorem C13_abort_identity: an abandoned transaction returns with memory and filesystem unchanged (same files, same directories), all its calls are "
